@@ -142,6 +142,17 @@ func (P) Exec(line string) string {
 			ops = strings.Split(f[4], ",")
 		}
 		return runPush(uint32(o), uint32(t), ops)
+	case "selfconn":
+		// C18 selfconn <allowSelf> <ours outbound> <ours inbound> <adv|nat>
+		if len(f) != 6 || (f[5] != "adv" && f[5] != "nat") {
+			return "bad-op"
+		}
+		o, err1 := strconv.ParseUint(f[3], 10, 31)
+		i, err2 := strconv.ParseUint(f[4], 10, 31)
+		if err1 != nil || err2 != nil || o == 0 || i == 0 {
+			return "bad-op"
+		}
+		return runSelfConn(f[2] == "1", uint32(o), uint32(i), f[5])
 	case "racerun":
 		// C18 racerun build=.. races=.. mism=..: result of the -race build of this
 		// harness, obtained in Generate (thorough tier).
@@ -532,6 +543,19 @@ func (P) Generate(g *core.Gen) {
 			}
 		}
 		g.Case("push-api", true, fmt.Sprintf("C18 push %d %d %s", ours, theirs, strings.Join(ops, ",")))
+	}
+	// 2f. a node that dials itself: real outbound + real inbound peer of this
+	// process back to back, adversarial and natural schedules.
+	for _, vo := range []int64{70016, 70015, 70002, 60002} {
+		for _, vi := range []int64{70016, 70013, 60001} {
+			for _, sched := range []string{"adv", "nat"} {
+				g.Case("self-connection", true, fmt.Sprintf("C18 selfconn 0 %d %d %s", vo, vi, sched))
+			}
+			g.Case("self-connection-allowed", true, fmt.Sprintf("C18 selfconn 1 %d %d %s", vo, vi, []string{"adv", "nat"}[r.Intn(2)]))
+		}
+	}
+	for i, n := 0, g.N(20, 600); i < n; i++ {
+		g.Case("self-connection", true, fmt.Sprintf("C18 selfconn 0 %d %d %s", r.Range(60001, 70016), r.Range(60001, 70016), []string{"adv", "adv", "nat"}[r.Intn(3)]))
 	}
 	// 3. messages queued while the handshake is still in progress.
 	for _, dir := range []string{"in", "out"} {
